@@ -55,7 +55,8 @@ Definition C08_statement : Prop :=
      exists v ps m b, In (Recv (FReq v i ps m)) evs /\ ps = POk /\ handler_of m = Some b /\ bout b = ORet z) /\
   (* (vi) never doubled (no guard); never lost (C01's guard) *)
   (forall c evs, NoDup (req_ids evs) -> forall i, replies i (out (run c evs)) <= 1) /\
-  (forall c evs, guard c evs = true -> quiescent (run c evs) = true ->
+  (forall c evs, handler_codes_int32 evs = true (* the model's domain, see Props/C01.v *) ->
+     guard c evs = true -> quiescent (run c evs) = true ->
      forall i, replies i (out (run c evs)) = count_id i (expected evs)).
 
 Theorem C08 : C08_statement.
@@ -77,7 +78,7 @@ Proof.
   - intros c evs i p. apply reply_is_allowed.
   - intros c evs i z. apply result_is_own_value.
   - intros c evs ND i. apply at_most_one_reply_all. exact ND.
-  - intros c evs G Q i. apply exactly_one_at_quiescence; assumption.
+  - intros c evs _ G Q i. apply exactly_one_at_quiescence; assumption.
 Qed.
 Print Assumptions C08.
 
